@@ -283,6 +283,12 @@ func (s *Suite) Finish(prop string, c *Ctx, caseJSON func() []byte) []Disc {
 				break
 			}
 		}
+		if d.Where == "harness" || d.Kind == "oracle-defect" {
+			// a fault of the machinery itself is never a violation: exit 2
+			s.Note("harness fault: %s: %s", d.Kind, d.Detail)
+			s.Extra("harness_error", true)
+			continue
+		}
 		if d.Known == "" {
 			bad = append(bad, *d)
 		}
